@@ -152,6 +152,11 @@ TESTS = dict(single_mode=t_single_mode, parseval=t_parseval, homogeneous=t_homog
 
 def witness(ctx):
     deep = ctx.deep
+    # grid sizes for which N * (1/N) != 1 in double precision (49, 98, 103, 107): Nyquist recognition and shell centres must not depend on it
+    for D, N in ((1, 98), (1, 49), (2, 49), (1, 103)) + (((2, 98), (1, 196), (1, 107), (3, 49)) if deep else ()):
+        ctx.check("parseval", dict(D=D, N=N, C=1, seed=ctx.seed + N))
+        for k in ([N // 2] if D == 1 else [3, N // 2 - 1, N // 2]):
+            ctx.check("single_mode", dict(D=D, N=N, k=[0] * (D - 1) + [k], phase=0.4))
     for D, N in ([(1, 8), (1, 9), (2, 6), (2, 7), (2, 16), (3, 4), (3, 5)] if not deep else [(1, 8), (1, 9), (1, 13), (2, 6), (2, 7), (2, 12), (2, 15), (2, 16), (3, 4), (3, 5), (3, 6), (3, 12)]):
         half = N // 2
         ks = list(itertools.product(range(-half, half + 1), repeat=D))
